@@ -63,6 +63,7 @@ def run(ctx):
     r151(ctx, rep)
     r152(ctx, rep)
     r153(ctx, rep)
+    r153_memory(ctx, rep)
     r154_155(ctx, rep)
 
 
@@ -174,6 +175,38 @@ def r153(ctx, rep):
             rep.held('R15.3', fn, "source.open('rb')", '', opens[0])
         else:
             rep.violated('R15.3', fn, "source.open('rb')", 'readers must open the source in binary read mode', fn.node)
+
+
+def r153_memory(ctx, rep):
+    """MemorySource.open: mode w creates a fresh buffer (a reused buffer keeps its
+    position), mode a keeps the existing one, mode r wraps the supplied bytes."""
+    fn = ctx.project.need_fn('petl.io.sources:MemorySource.open')
+    branches = {}
+    for n in own_nodes(fn.node):
+        if isinstance(n, ast.If):
+            t = norm(n.test)
+            for m in ('r', 'w', 'a'):
+                if t == "'%s' in mode" % m:
+                    branches[m] = n
+    if set(branches) != {'r', 'w', 'a'}:
+        raise AnalysisError('anchor vanished: mode branches of MemorySource.open (%s)' % sorted(branches))
+    w = branches['w']
+    stores = [x for b in w.body for x in ast.walk(b) if isinstance(x, ast.Assign) and any(norm(t) == 'self.buffer' for t in x.targets)]
+    fresh = [x for x in stores if norm(x.value) in ('BytesIO()', 'StringIO()')]
+    reuse = [x for b in w.body for x in ast.walk(b) if isinstance(x, ast.Call) and norm(x.func) in ('self.buffer.truncate', 'self.buffer.seek')]
+    if fresh and len(fresh) == len(stores) and not reuse:
+        rep.held('R15.3', fn, "mode 'w': fresh buffer", 'a write starts from an empty buffer at position 0', w)
+    else:
+        rep.violated('R15.3', fn, "mode 'w': fresh buffer",
+                     'opening an in-memory sink for writing does not start from a new empty buffer (%s): a reused buffer keeps '
+                     'its stream position, so a second to* on the same sink leaves NUL padding / old content before the data'
+                     % ([norm(x) for x in reuse] or [norm(x.value) for x in stores]), w)
+    a = branches['a']
+    guarded = [x for x in a.body if isinstance(x, ast.If) and norm(x.test) == 'self.buffer is None']
+    if guarded and not [x for x in a.body if isinstance(x, ast.Assign)]:
+        rep.held('R15.3', fn, "mode 'a': keep the buffer", '', a)
+    else:
+        rep.violated('R15.3', fn, "mode 'a': keep the buffer", 'append mode must keep an existing buffer and only create one when there is none', a)
 
 
 def r154_155(ctx, rep):
